@@ -2,7 +2,7 @@
    name.  This is what is extracted; the correspondence harness calls these
    and nothing else. *)
 From AK Require Import Base.Prelude Base.Sx Bytes.Text Bytes.FabHeader Bytes.BinFile
-  Reader.Select Reader.BoxRead Reader.Level Plotfile.TextHeader Taste.Taste Writers.Colander
+  Reader.Select Reader.BoxRead Reader.Level Plotfile.TextHeader Taste.Taste Writers.Colander Writers.Combine
   Array.Paint Mandoline.Plate Whip.Whip Pestle.Pestle Point.PointQuery.
 
 Definition as_Zs := as_list as_Z.
@@ -354,6 +354,15 @@ Definition e_point (s : sx) : sx :=
   | _ => bad_request
   end.
 
+(* ---- C06: combine on two directory images ---- *)
+Definition e_combine (s : sx) : sx :=
+  match s with
+  | SL [n1; n2; d1; d2] =>
+      req (do n1 <- as_Bs n1; do n2 <- as_Bs n2; do d1 <- dec_pdisk d1; do d2 <- dec_pdisk d2; Some (n1, n2, d1, d2))
+          (fun '(n1, n2, d1, d2) => of_result enc_pdisk (combine_tool n1 n2 d1 d2))
+  | _ => bad_request
+  end.
+
 Definition entries : list (string * (sx -> sx)) :=
   [ ("getitem", e_getitem);
     ("iter_all", e_iter_all);
@@ -374,7 +383,8 @@ Definition entries : list (string * (sx -> sx)) :=
     ("plate", e_plate);
     ("whip", e_whip);
     ("pestle", e_pestle);
-    ("point", e_point)
+    ("point", e_point);
+    ("combine", e_combine)
   ]%string.
 
 Fixpoint find_entry (name : string) (l : list (string * (sx -> sx))) : option (sx -> sx) :=
